@@ -73,6 +73,12 @@ func (m *modEngine) mutatesParamSpec(fn *ssa.Function, idx int, spec string) (bo
 			case *ssa.ChangeType:
 				cur = x.X
 				continue
+			case *ssa.MakeInterface:
+				cur = x.X
+				continue
+			case *ssa.ChangeInterface:
+				cur = x.X
+				continue
 			case *ssa.Phi:
 				for _, e := range x.Edges {
 					if e != cur && derived(e) {
@@ -648,7 +654,7 @@ func init() {
 	register(&propertySpec{
 		ID:      "C04",
 		Explain: "Static fan-out rules for the event walk: every binding / action pair gets a child node on every iteration, each concurrently running action owns its bindings map, the goroutines' shared writes are under one mutex with a complete WaitGroup protocol, and nodes are complete only without error. Does not decide the variable environment seen by scripts, equality of tree / values / side effects, or which bindings the condition yields.",
-		Rules:   []ruleFn{ruleFanOwn, ruleFanSync, ruleFanEvery, ruleSetIfAbsent, ruleDispErr, ruleLoopAlias, ruleThunkLazy, ruleValuesOwnDisp, ruleDecodeDep, ruleIdxOrder("C04"), ruleRecoverResult},
+		Rules:   []ruleFn{ruleFanOwn, ruleFanSync, ruleFanEvery, ruleSetIfAbsent, ruleDispErr, ruleLoopAlias, ruleThunkLazy, ruleValuesOwnDisp, ruleDecodeDep, ruleIdxOrder("C04"), ruleRecoverResult, ruleModIndex("C04")},
 	})
 	register(&propertySpec{
 		ID:      "C05",
@@ -724,5 +730,35 @@ func ruleCastFresh(w *World, r *Report) {
 	})
 	if !bad {
 		r.ok("CAST-FRESH", key, w.Pos(fn.Pos()), itoa(n)+" container assertions; the input is returned only for non-containers")
+	}
+}
+
+// MOD-INDEX (C01, C04): looking a pattern or an event up in the rule index does not change it.
+func ruleModIndex(prop string) ruleFn {
+	return func(w *World, r *Report) {
+		r.Rule("MOD-INDEX", "the rule index does not reorder the arrays of the maps it is given: PatternIndex.searchPairs and mod hand each array value of the event (or of the rule's `when`) to core.SortValues, and the MOD summary of SortValues (as for MOD-PURE; sort.Sort is followed into the Swap of the slice type it is handed) shows that it never writes through its argument — it sorts a copy.  The event map handed to the index is the one bound to `?event` and reported in the work tree; sorting one of its arrays in place (to walk the index in the order in which patterns were filed) hands the actions an event that is not the submitted one, and only in an IndexedState", 1)
+		m := newModEngine(w, nil)
+		fn := w.Func("core", "SortValues")
+		key := "fn=" + fname(fn) + " param=" + fn.Params[0].Name()
+		if ok, why := m.mutatesParam(fn, 0); ok {
+			r.violation("MOD-INDEX", key, w.Pos(fn.Pos()), "the array is sorted in place: "+why)
+		} else {
+			r.ok("MOD-INDEX", key, w.Pos(fn.Pos()), "never written through (a copy is sorted)")
+		}
+		// premise: the index hands SortValues arrays that belong to the caller's map
+		n := 0
+		for _, name := range []string{"searchPairs", "mod"} {
+			f := w.Method("core", "PatternIndex", name)
+			allInstrs(f, func(in ssa.Instruction) {
+				if c := callOf(in); c != nil && c.StaticCallee() == fn {
+					n++
+				}
+			})
+		}
+		r.stat("MOD-INDEX.sortvalues_calls_in_index", n)
+		if n == 0 {
+			r.info("MOD-INDEX", "premise", w.Pos(fn.Pos()), "the index no longer calls SortValues")
+		}
+		r.stat("MOD-INDEX.summaries_computed", len(m.memo))
 	}
 }
